@@ -402,6 +402,7 @@ class FX:
             r = self._run_function(fn, env)
             self.returns.append(r)
         self._dealias_new_intermediates(ctx)
+        self._one_bit_compares()
         self._resolve_ir_renames(ctx, entries)
         ctx.analysed["classes" if cls else "functions"].add(f"{rel}::{self.scope}")
         ctx.analysed["ir_records"] += len(self.assigns) + len(self.trans) + len(self.insts)
@@ -480,6 +481,38 @@ class FX:
         for nm in subst:
             self.decl.pop(nm, None)
             ctx.note(f"{self.rel}::{self.scope}: new 1-bit intermediate `{nm}` = {norm(subst[nm].value)[:80]} substituted where it is read")
+
+    def _one_bit_compares(self):
+        """`s == 0` / `s != 1` on a signal declared 1 bit wide reads as `~s`, `s == 1` / `s != 0` as `s` (Migen gives the same
+        1-bit value); only for signals whose declaration is in this class and plainly 1 bit."""
+        one = set()
+        for nm, d in self.decl.items():
+            if d and d[0] == "Signal" and isinstance(d[1], ast.Call):
+                c = d[1]
+                if not c.keywords or all(k.arg in ("reset", "reset_less", "name", "name_override") for k in c.keywords):
+                    if not c.args or (len(c.args) == 1 and isinstance(c.args[0], ast.Constant) and c.args[0].value == 1):
+                        one.add(nm)
+        if not one:
+            return
+
+        class X(ast.NodeTransformer):
+            def visit_Compare(self, n):
+                self.generic_visit(n)
+                if len(n.ops) == 1 and isinstance(n.ops[0], (ast.Eq, ast.NotEq)):
+                    for a, b in ((n.left, n.comparators[0]), (n.comparators[0], n.left)):
+                        if isinstance(b, ast.Constant) and type(b.value) is int and b.value in (0, 1) and norm(a) in one:
+                            pos = (b.value == 1) == isinstance(n.ops[0], ast.Eq)
+                            return a if pos else ast.UnaryOp(op=ast.Invert(), operand=a)
+                return n
+        for a in self.assigns:
+            if isinstance(a.value, ast.AST):
+                a.value = X().visit(a.value)
+            a.guards = [(X().visit(c) if isinstance(c, ast.AST) else c, p) for c, p in a.guards]
+            a._v = None
+        for t in self.trans:
+            t.guards = [(X().visit(c) if isinstance(c, ast.AST) else c, p) for c, p in t.guards]
+        for c in self.conns:
+            c["guards"] = [(X().visit(g) if isinstance(g, ast.AST) else g, p) for g, p in c["guards"]]
 
     # ------------------------------------------------------------------ renamed local objects, resolved on the IR
     def _ir_fingerprints(self, names):
